@@ -6,6 +6,7 @@ label 0 none, 1 hard (deps), 2 soft (weak_deps), 3 merge, 4 loop_control.
 Oracle: reachability over hard = deps + merge, computed by the harness."""
 import vlib.shims  # noqa: F401
 from vlib import cov
+from vlib.concrete import untraced, concrete_index, concrete_bool
 
 from edb.common import topological as T
 from edb.common.ordered import OrderedSet
@@ -91,6 +92,20 @@ def check(n: int, labels, allow_unresolved: bool, fill_after: bool) -> bool:
         exc = 'unresolved'
         res = None
     cov.done('graph')
+    # Soft dependencies only influence the order: the same graph without its
+    # soft edges fails or succeeds in the same way.
+    if weak:
+        nosoft = [[(0 if x == 2 else x) for x in row] for row in labels]
+        try:
+            list(T.sort_ex(build(n, nosoft, fill_after), allow_unresolved=allow_unresolved))
+            exc2 = None
+        except T.CycleError:
+            exc2 = 'cycle'
+        except T.UnresolvedReferenceError:
+            exc2 = 'unresolved'
+        soft_unresolved = any(labels[i][n] == 2 for i in range(n))
+        if not soft_unresolved and exc2 != exc:
+            return False
     # P6: references to a missing item
     if unresolved and not allow_unresolved:
         return exc == 'unresolved'
@@ -123,6 +138,7 @@ def check(n: int, labels, allow_unresolved: bool, fill_after: bool) -> bool:
             for (i, j) in weak:
                 if pos[j] >= pos[i]:
                     return False
+    # (soft edges never change whether sorting succeeds - checked in check())
     # deterministic for a given input
     res2 = [k for k, _ in T.sort_ex(build(n, labels, fill_after), allow_unresolved=allow_unresolved)]
     if res2 != res:
@@ -152,16 +168,42 @@ def lab(x: int, kinds: int) -> int:
 
 def graph2(kinds: int, a: int, b: int, c: int, d: int, ua: int, ub: int, allow: bool, fill_after: bool) -> bool:
     """All 2-key graphs: pairs (0,0),(0,1),(1,0),(1,1) + references to the missing key."""
+    vals = [concrete_index(x, 5) for x in (a, b, c, d, ua, ub)]
+    if min(vals) < 0:
+        return True
+    a, b, c, d, ua, ub = vals
+    allow, fill_after = concrete_bool(allow), concrete_bool(fill_after)
     labels = [[lab(a, kinds), lab(b, kinds), lab(ua, kinds)], [lab(c, kinds), lab(d, kinds), lab(ub, kinds)]]
-    return check(2, labels, allow, fill_after)
+    with untraced():
+        return check(2, labels, allow, fill_after)
 
 
 def graph3(kinds: int, l00: int, l01: int, l02: int, l10: int, l11: int, l12: int, l20: int, l21: int, l22: int,
            u0: int, allow: bool, fill_after: bool) -> bool:
+    vals = [concrete_index(x, 5) for x in (l00, l01, l02, l10, l11, l12, l20, l21, l22, u0)]
+    if min(vals) < 0:
+        return True
+    l00, l01, l02, l10, l11, l12, l20, l21, l22, u0 = vals
+    allow, fill_after = concrete_bool(allow), concrete_bool(fill_after)
     labels = [[lab(l00, kinds), lab(l01, kinds), lab(l02, kinds), lab(u0, kinds)],
               [lab(l10, kinds), lab(l11, kinds), lab(l12, kinds), 0],
               [lab(l20, kinds), lab(l21, kinds), lab(l22, kinds), 0]]
-    return check(3, labels, allow, fill_after)
+    with untraced():
+        return check(3, labels, allow, fill_after)
+
+
+def graph3lc(l01: int, l02: int, l10: int, l12: int, l20: int, l21: int, fill_after: bool) -> bool:
+    """3 keys, no self-loops, every pair any of {none, hard, soft, loop_control}."""
+    def m(x):
+        return 4 if x == 3 else x
+    vals = [concrete_index(x, 4) for x in (l01, l02, l10, l12, l20, l21)]
+    if min(vals) < 0:
+        return True
+    l01, l02, l10, l12, l20, l21 = vals
+    fill_after = concrete_bool(fill_after)
+    labels = [[0, m(l01), m(l02), 0], [m(l10), 0, m(l12), 0], [m(l20), m(l21), 0, 0]]
+    with untraced():
+        return check(3, labels, False, fill_after)
 
 
 def normalize2(a: int, b: int, c: int, d: int) -> bool:
